@@ -126,8 +126,5 @@ pub fn replay(r: &Value) -> bool {
         }
         _ => tables(&Ctx { tier: "quick".into(), seed: 1, profile: "release".into(), args: vec![] }, &mut rep),
     }
-    for v in &rep.violations {
-        println!("{}: {}", v.signature, v.detail);
-    }
-    rep.violations.is_empty()
+    crate::util::print_replay(&rep)
 }
